@@ -34,8 +34,17 @@ func c12(c *core.Ctx) map[string]interface{} {
 	r12tab(c, m)
 	r12off(c, m)
 	r12transfer(c)
-	r12skip(c)
-	r12term(c)
+	handled := map[string]bool{}
+	if xferDone[c] {
+		handled["DecodePDUSessionResourceSetupRequestTransfer"] = true
+	}
+	std, half, pduIEI, okStd := stdAcceptFormats(m)
+	if okStd && r12walkX(c, std, half, pduIEI) {
+		handled["DecodePDUSessionNASPDU"] = true
+	} else {
+		r12skip(c)
+	}
+	r12term(c, handled)
 	r12tight(c)
 	// the values reported are those of the setup item the request carries (R2.report, shared with C02)
 	r2report(c, driverModel(c, mustFunc(c, pStg, "EstablishPDU")))
@@ -325,6 +334,9 @@ func r12transfer(c *core.Ctx) {
 		}
 	}
 	id := mustConst(c, pNgapT, "ProtocolIEIDULNGUUPTNLInformation")
+	if r12transferX(c, R, fn, id) {
+		return
+	}
 	// the IE walk may have been moved into a helper of the same package that is handed the transfer
 	if len(allLoopPhis(fn)) == 0 {
 		for _, ci := range core.Calls(fn) {
@@ -582,10 +594,52 @@ func r12skip(c *core.Ctx) {
 	c.SoftUndecided("DecodePDUSessionNASPDU: optional-IE walk not found")
 }
 
-func r12term(c *core.Ctx) {
+// xferDone: the transfer extractor's walk was decided on the symbolic-iteration model (with its progress).
+var xferDone = map[*core.Ctx]bool{}
+
+// stdAcceptFormats: how each optional element of PDU SESSION ESTABLISHMENT ACCEPT is coded: total
+// size for fixed-size elements, -1 / -2 for one / two length octets (library codec, plus the later
+// IEs of TS 24.501 table 8.3.2.1.1); the half-octet identifiers (high nibble); the PDU address IEI.
+func stdAcceptFormats(m *nasModel) (map[int64]int64, map[int64]bool, int64, bool) {
+	msg := m.Msgs["PDUSessionEstablishmentAccept"]
+	if msg == nil {
+		return nil, nil, 0, false
+	}
+	std, half := map[int64]int64{}, map[int64]bool{0xc0: true}
+	pdu := int64(-1)
+	for _, ie := range msg.IEs {
+		if !ie.Optional {
+			continue
+		}
+		if ie.Field == "PDUAddress" {
+			pdu = ie.IEI
+			continue
+		}
+		w := ie.wire(ie.Enc)
+		switch {
+		case w == "TV-half":
+			half[ie.IEI<<4] = true
+		case strings.HasPrefix(w, "TV"):
+			std[ie.IEI] = ie.ValueSize + 1
+		case w == "TLV":
+			std[ie.IEI] = -1
+		case w == "TLV-E":
+			std[ie.IEI] = -2
+		}
+	}
+	for k, v := range t24501Extra8321 {
+		std[k] = v
+	}
+	return std, half, pdu, pdu >= 0
+}
+
+func r12term(c *core.Ctx, handled map[string]bool) {
 	const R = "R12.term"
 	c.Rule(R, "both extractor loops: on every back edge the index is provably larger than at the loop head (no input makes the walk spin)")
 	for _, name := range []string{"DecodePDUSessionNASPDU", "DecodePDUSessionResourceSetupRequestTransfer"} {
+		if handled[name] {
+			continue
+		}
 		fn := mustFunc(c, pStg, name)
 		p := core.NewPather(fn)
 		ia := core.NewIntervalAnalyzer(fn)
